@@ -51,10 +51,9 @@ def r1(ctx, retsets):
         if not c.callee or c.callee not in M:
             continue
         n += 1
-        guards = [(vf.expr(fn, g), t) for g, t, br in es.guards_of(fn, c)]
-        is_eod = any(g[0] == "icmp" and g[1] == "eq" and t and ("c", eod) in (g[2], g[3]) for g, t in guards)
-        sess = any(g[0] == "icmp" and ((g[1] == "ne" and not t) or (g[1] == "eq" and t)) and
-                   any(x == ("load", ("fld", SOCK, "rtr_socket.session_id")) for x in (g[2], g[3])) for g, t in guards)
+        G = es.Guards(fn, c)
+        is_eod = bool(G.find_eq(lambda x: True, lambda y: y == ("c", eod)))
+        sess = bool(G.find_eq(lambda x: x == ("load", ("fld", SOCK, "rtr_socket.session_id")), lambda y: True))
         ctx.check(is_eod and sess, "C03.R1", "%s@%s" % (c.callee, _ord(fn, c)), c.loc(),
                   "dominated by type==EOD: %s, by the passed session check: %s" % (is_eod, sess), key="C03.R1:%s" % c.callee)
     ctx.floor("C03.R1", n, 10)
